@@ -67,6 +67,9 @@ func denomIdx(d string) int {
 // useKeyedUsers: derive the user accounts from secp256k1 keys (full-application path) instead of hashes
 var useKeyedUsers bool
 
+// extremeFunds: the users hold 2^230 of every denomination (profile "extreme")
+var extremeFunds bool
+
 func NewEnv() *Env {
 	var users []sdk.AccAddress
 	if useKeyedUsers {
@@ -107,6 +110,10 @@ func NewEnvWith(users []sdk.AccAddress) *Env {
 func (e *Env) fund() {
 	a := e.app
 	rich, _ := math.NewIntFromString("1000000000000000000000000")
+	if extremeFunds {
+		// 2^230: amounts far beyond any real supply, close to the 256-bit limit of math.Int
+		rich, _ = math.NewIntFromString("1725436586697640946858688965569256363112777243042596638790631055949824")
+	}
 	for i, u := range e.users {
 		amt := rich
 		if i == NUsers-1 {
